@@ -535,6 +535,8 @@ func (env *Env) nilCompare(x Term, neg bool) Term {
 		r = c.mapNil(x)
 	case KSlice:
 		r = env.u.sliceIsNil(x)
+	case KOpaque:
+		r = c.opaqueIsNil(x)
 	default:
 		z := c.zero(x.Sort, nil)
 		r = tEq(x, z)
